@@ -131,6 +131,7 @@ type rWorld struct {
 	keepalives  int
 	noSleep     bool
 	viol        []map[string]any
+	monitorOnly bool    // a trace outside the model's op language (slow source): monitors only, no correspondence
 	seq         int     // op sequence number
 	maxHigh     []int64 // per source: largest exclusive high of an EMPTY batch so far (only those travel on as watermark messages: broadcast or replay)
 }
@@ -618,6 +619,10 @@ func (w *rWorld) exec(op string) (string, string) {
 		if ti := w.tgt[int(n(1))]; ti != nil {
 			ti.stream.SetGate(f[2] == "1")
 		}
+	case "sgate": // the SOURCE cluster stops / resumes reading what the proxy sends it on stream s: the proxy's Send of an ack blocks
+		if cs := w.srcCli[int(n(1))]; cs != nil {
+			cs.SetGate(f[2] == "1")
+		}
 	case "breaktgt":
 		t := int(n(1))
 		if ti := w.tgt[t]; ti != nil && !ti.broken {
@@ -646,6 +651,11 @@ func (w *rWorld) exec(op string) (string, string) {
 }
 
 func (w *rWorld) close() {
+	for _, cs := range w.srcCli {
+		if cs != nil {
+			cs.SetGate(false)
+		}
+	}
 	for _, ti := range w.tgt {
 		if ti != nil {
 			ti.stream.SetGate(false)
@@ -671,7 +681,12 @@ func runRoutingTrace(t *testing.T, e *Env, begin string, next func(w *rWorld, i 
 		ns, _ := strconv.Atoi(f[1])
 		nt, _ := strconv.Atoi(f[2])
 		w := newRWorld(t, ns, nt)
-		e.Emit(begin, "ok")
+		w.monitorOnly = len(f) > 5 && f[5] == "slowsrc"
+		if w.monitorOnly {
+			e.Emit("# "+begin, "#")
+		} else {
+			e.Emit(begin, "ok")
+		}
 		ops = append(ops, begin)
 		for i := 0; ; i++ {
 			op := next(w, i)
@@ -689,7 +704,11 @@ func runRoutingTrace(t *testing.T, e *Env, begin string, next func(w *rWorld, i 
 			if hint != "" {
 				line = op + " ~ " + hint // the observed per-target enqueue order resolves the model's scheduling nondeterminism
 			}
-			e.Emit(line, obs)
+			if w.monitorOnly {
+				e.Emit("# "+line, "#") // the model's acknowledgement step is atomic; a Send that blocks half-way is outside its op language
+			} else {
+				e.Emit(line, obs)
+			}
 			e.Count("op_" + strings.Fields(op)[0])
 			for _, v := range w.viol {
 				v["ops"] = append([]string{}, ops...)
@@ -701,7 +720,9 @@ func runRoutingTrace(t *testing.T, e *Env, begin string, next func(w *rWorld, i 
 			}
 		}
 		e.Dist["keepalives_filtered"] += w.keepalives
-		if w.faults {
+		if w.monitorOnly {
+			e.Count("trace_slow_source_monitor_only")
+		} else if w.faults {
 			e.Count("trace_with_faults")
 		} else {
 			e.Count("trace_fault_free")
